@@ -123,7 +123,7 @@ def run(out, tier, model_ok=True):
     with open(os.path.join(cdir, fn)) as f:
       check_frame(out, rng, json.load(f)['frame'], None, [])
   for i in range(n):
-    fr = en.gen_frame(rng, cooldown=rng.choice([1, 2, 4, 0]), cost_kind=('variable' if i % 3 == 0 else 'fixed'), spike=(i % 10 == 3))
+    fr = en.gen_frame(rng, cooldown=rng.choice([1, 2, 4, 0]), cost_kind=('variable' if i % 3 == 0 else 'fixed'), spike=(i % 10 == 3), flat_test=(i % 12 == 5))
     if i % 10 == 4:
       SHARED.clear()      # a new re-used object now and then, so that both cost scenarios come first on some object
     fr.update(level=rng.choice([0.9, 0.8, 0.95, 0.5, 0.3]), tails=rng.choice([1, 2]),
